@@ -15,13 +15,13 @@ RULE = (
     "118 elements; n up to 130/400) in a drawn listing order; oracle: parse(tucan(G)) has the "
     "same atom/bond counts, is colour-preserving isomorphic to the ABSTRACT molecule (own "
     "individualisation-refinement search, mapping verified edge by edge; VF2 cross-check for "
-    "n<=24) and re-serialises to the identical string. Non-trivial = >=2 elements whose symbol "
+    "n<=10) and re-serialises to the identical string. Non-trivial = >=2 elements whose symbol "
     "order differs from Z order, or >=10 atoms, or >=2 labelled atoms of one element; distinct "
     "by digest of the case."
 )
 MANIFEST = {
     "text": "Round-trip search: for generated molecules (all 118 elements, isotope/radical values up to 1e9, up to hundreds of atoms, symmetric and WL-hard skeletons) the emitted string is parsed back and compared with the abstract molecule by an independent isomorphism search whose witness mapping is verified edge by edge, and re-serialised to test the fixed point. Cannot prove the round-trip for all molecules.",
-    "note": "Trusted: verify_mapping (colour equality + edge bijection) and the abstract model. A negative isomorphism answer for n<=24 is cross-checked with networkx VF2.",
+    "note": "Trusted: verify_mapping (colour equality + edge bijection) and the abstract model. A negative isomorphism answer for n<=10 is cross-checked with networkx VF2.",
     "technique": "property-based testing: round-trip + isomorphism oracle independent of igraph/bliss (Hypothesis, 16 shards)",
 }
 ASSUMPTIONS = ["isomorphism search budget: exhausted budget is counted as inconclusive, never as a violation"]
